@@ -71,3 +71,44 @@ Definition chk_trace (c : list op * list obs) : bool :=
 
 (* for diagnosis: the model's observations for an op list *)
 Definition model_obs (ops : list op) : list obs := run_obs ops established.
+
+(* ---------------------------------------------------------------------------------------------
+   The pair model (Model/ClosePair.v, byte-counted close handshake) against a real client/server
+   channel: after every op both endpoints' send/receive state, buffered and window byte counts,
+   close notifications, registration, the packets in flight in both directions and whether a protocol
+   error ended the connection are compared. *)
+From AV Require Import Model.ClosePair.
+
+Definition eobs := (nat * nat * nat * nat * nat * nat * nat * nat)%type.  (* ss rs sbuf swin rwin rbuf lost reg *)
+Definition pobs := (eobs * eobs * list (nat * nat) * list (nat * nat) * bool)%type.
+Definition ep_obs (e : ep) : eobs :=
+  (ss_code (e_ss e), rs_code (e_rs e), e_sbuf e, e_swin e, e_rwin e, e_rbuf e, e_lost e, if e_reg e then 1 else 0).
+Definition q_code (q : ppkt) : nat * nat :=
+  match q with QData n => (0, n) | QAdjust n => (1, n) | QEof => (2, 0) | QClose => (3, 0) end.
+Definition pair_obs (p : pair) : pobs :=
+  (ep_obs (pa p), ep_obs (pb p), map q_code (wab p), map q_code (wba p), perr p).
+Definition nat2_eqb (a b : nat * nat) : bool := (fst a =? fst b) && (snd a =? snd b).
+Definition eobs_eqb (m r : eobs) : bool :=
+  let '(m1, m2, m3, m4, m5, m6, m7, m8) := m in
+  let '(r1, r2, r3, r4, r5, r6, r7, r8) := r in
+  (m1 =? r1) && (m2 =? r2) && (m3 =? r3) && (m4 =? r4) && (m5 =? r5) && (m6 =? r6) && (m7 =? r7) && (m8 =? r8).
+Definition pobs_eqb (m r : pobs) : bool :=
+  let '(m1, m2, m3, m4, m5) := m in
+  let '(r1, r2, r3, r4, r5) := r in
+  eobs_eqb m1 r1 && eobs_eqb m2 r2 && list_eqb nat2_eqb m3 r3 && list_eqb nat2_eqb m4 r4 && Bool.eqb m5 r5.
+
+Fixpoint run_pair (steps : list (list pop * pobs)) (p : pair) : bool :=
+  match steps with
+  | [] => true
+  | (ops, o) :: r =>
+      let p' := prun true ops p in
+      (* once a protocol error has ended the connection only that fact is compared *)
+      (if perr p' then (let '(_, _, _, _, e) := o in e) else pobs_eqb (pair_obs p') o) && run_pair r p'
+  end.
+Definition chk_pair (c : (nat * nat * bool * bool) * list (list pop * pobs)) : bool :=
+  let '(wa, wb, ka, kb, steps) := c in run_pair steps (pair0 wa wb ka kb).
+Fixpoint pair_trace (steps : list (list pop * pobs)) (p : pair) : list pobs :=
+  match steps with
+  | [] => []
+  | (ops, _) :: r => let p' := prun true ops p in pair_obs p' :: pair_trace r p'
+  end.
